@@ -70,6 +70,12 @@ Theorem C18_const_int_exact :
 Proof. exact parse_print_Z. Qed.
 Print Assumptions C18_const_int_exact.
 
+(** strings of any bytes and any length: the quoted literal reads back as the string *)
+Theorem C18_const_string_exact :
+  forall x, parse_str (print_str x) = Some x.
+Proof. exact parse_print_str. Qed.
+Print Assumptions C18_const_string_exact.
+
 (** floats: a value a/2^k is bound exactly (whenever the model's exponent search answers) *)
 Theorem C18_const_float_partial :
   forall a k r, 0 <= k -> fix_float a (2 ^ k) = Some r -> req r (a, 2 ^ k) = true.
